@@ -30,7 +30,8 @@ package http
 //@   ensures other: h0 != "" && ct != "application/json" && ct != "application/xml" ==> ctOf(h) == ct
 //@   ensures kept: h0 != "" && (ct == "application/json" || ct == "application/xml") && contains(h0, "+") ==> ctOf(h) == h0
 //@   ensures suffixed: h0 != "" && (ct == "application/json" || ct == "application/xml") && !contains(h0, "+") ==> ctOf(h) == h0 + ite(ct == "application/xml", "+xml", "+json")
-//@   modifies HdrVal[rwHeader(w)]
+//@   modifies* HdrVal[rwHeader(w)]
+//@   frameprop C20 C15
 
 //@ func ResponseDecoder
 //@   property C15
@@ -38,7 +39,8 @@ package http
 //@   let ct0 = old(ctOf(resp.Header))
 //@   ensures* nonnil: result != nil
 //@   ensures* format: decFmt(result) == ite(ct0 == "", 0, wireFormat(normMT(ct0)))
-//@   modifies nothing
+//@   modifies* nothing
+//@   frameprop C20
 
 //@ func RequestDecoder
 //@   property C15
@@ -51,7 +53,8 @@ package http
 //@   ensures* gob: ct0 != "" && normMT(ct0) == "application/gob" ==> decFmt(result) == 2
 //@   ensures* text: ct0 != "" && (normMT(ct0) == "text/html" || normMT(ct0) == "text/plain") ==> decFmt(result) == 3
 //@   ensures* unsupported: ct0 != "" && normMT(ct0) != "application/json" && normMT(ct0) != "application/xml" && normMT(ct0) != "application/gob" && normMT(ct0) != "text/html" && normMT(ct0) != "text/plain" ==> decFmt(result) == 4 && result.(*unsupportedDecoder).ct == normMT(ct0)
-//@   modifies nothing
+//@   modifies* nothing
+//@   frameprop C20
 
 //@ func ResponseEncoder
 //@   property C15
@@ -70,7 +73,8 @@ package http
 //@   ensures* agree.preset.simple.accept: ct == "" && h0 != "" && !contains(h0, "+") && !contains(h0, ";") ==> encFmt(result) == wireFormat(normMT(ctOf(h)))
 //@   ensures* agree.preset.structured: h0 != "" && (contains(h0, "+") || contains(h0, ";")) ==> encFmt(result) == wireFormat(normMT(ctOf(h)))
 //@   ensures* fallback: h0 == "" && ct == "" && wireFormat(normMT(accept)) == 0 ==> encFmt(result) == 0
-//@   modifies HdrVal[rwHeader(w)]
+//@   modifies* HdrVal[rwHeader(w)]
+//@   frameprop C20 C15
 
 //@ func RequestEncoder
 //@   property C15
@@ -100,7 +104,8 @@ package http
 //@   ensures* shape: typeIs(result, *ErrorResponse) && R != nil && fresh(R)
 //@   ensures* service: asSE(err) != 0 ==> R.Name == old(se.Name) && R.ID == old(se.ID) && R.Message == old(se.Message) && R.Timeout == old(se.Timeout) && R.Temporary == old(se.Temporary) && R.Fault == old(se.Fault)
 //@   ensures* fault: asSE(err) == 0 ==> R.Name == "fault" && R.Fault && !R.Timeout && !R.Temporary && R.Message == errMsg(err)
-//@   modifies nothing
+//@   modifies* nothing
+//@   frameprop C20
 
 //@ lemma c05_plain_error_is_500 property C05: forall m String :: httpTable("fault", true, false, false) == 500
 //@ lemma c05_client_errors_are_400 property C05: forall n String :: n != "unsupported_media_type" ==> httpTable(n, false, false, false) == 400
@@ -183,7 +188,8 @@ package http
 //@   loop 1 invariant seen: -1 <= rangeindex && rangeindex < len(params.Keys) && vars != nil && fresh(vars) && params == x.URLParams && ctx == x
 //@   at mapupdate 1 assert* wildcard.decoded.once: value == decode1(select(select(rawSeg, x), i)) && key == m.wildcards[r.Method + "::" + select(chiPat, x)] && map == vars
 //@   at mapupdate 2 assert* named.decoded.once: value == decode1(select(select(rawSeg, x), i)) && key == params.Keys[i] && map == vars
-//@   modifies nothing
+//@   modifies* nothing
+//@   frameprop C20
 
 //@ func (*mux).ResolvePattern
 //@   property C16
@@ -194,7 +200,8 @@ package http
 //@   ensures* unrouted: x == nil ==> result == ""
 //@   ensures* catchall: x != nil && inMap(m.wildcards, r.Method + "::" + p) ==> result == substr(p, 0, len(p) - 2) + "/{*" + m.wildcards[r.Method + "::" + p] + "}"
 //@   ensures* plain: x != nil && !inMap(m.wildcards, r.Method + "::" + p) ==> result == p
-//@   modifies nothing
+//@   modifies* nothing
+//@   frameprop C20
 
 //@ func (*mux).Handle$1
 //@   property C16 C05
@@ -203,4 +210,6 @@ package http
 //@   requires ctxVal(req.ctx, iface(contextKey, 2)) == nil || typeIs(ctxVal(req.ctx, iface(contextKey, 2)), string)
 //@   let v = encLastVal
 //@   ensures* status404: select(whCalls, w) == old(select(whCalls, w)) + 1 && select(whLastCode, w) == 404
+//@   modifies* HdrVal[rwHeader(w)], whCalls, statusSent, whLastCode, encCalls, encLast, encCount, encLastVal
+//@   frameprop C20
 //@   ensures* body: encCount == old(encCount) + 1 && typeIs(v, *ErrorResponse) && v.(*ErrorResponse).Name == "fault" && v.(*ErrorResponse).Fault
